@@ -77,10 +77,10 @@ theorem acceptAvps_some {rs : List (Option AVP)} {as : List AVP} (h : acceptAvps
 /-- what the specification accepts as a control message: its AVPs are encodable, the first is a Message
     Type, and the re-encoding is no longer than the Length it was read with -/
 theorem specControl_sound (w : UInt16) (o : Opts) (s : Bytes) (m : Msg) (k : Nat)
-    (h : Spec.decodeControl w o s = some (m, k)) :
+    (h : Spec.decodeControlM w o s = some (m, k)) :
     ∃ c, m = .control c ∧ (∀ a ∈ c.avps, a.Encodable) ∧ firstIsMessageType c.avps = true ∧
       12 + (avpsImage c.avps).length ≤ 65535 := by
-  unfold Spec.decodeControl at h
+  unfold Spec.decodeControlM at h
   split at h
   · cases h
   split at h
